@@ -46,3 +46,47 @@ package postprocess
 //@     invariant forall id :: has(response.DeferDescriptors, id) ==> ownsGroup(response, id)
 //@   loop 2:
 //@     invariant forall id :: has(response.DeferDescriptors, id) ==> ownsGroup(response, id)
+
+// C08: a merged (multi) fetch must wait for every dependency of every member that is not itself a member;
+// rewiring a removed fetch id must reach every fetch of the (possibly nested) tree.
+//@ spec isMemberID(ids []int, d int) bool = exists i in 0..len(ids) :: ids[i] == d
+//@ func unionDependencies
+//@   ghost var g_pos intarray = zeroarray
+//@   at call append: ghostpre g_pos = store(g_pos, dep, len(arg0))
+//@   ensures {merged.fetch.waits.for.every.outside.dependency.of.every.member} forall a in 0..len(members) :: forall b in 0..len(members[a].DependsOnFetchIDs) :: isMemberID(ids, members[a].DependsOnFetchIDs[b]) || (exists k in 0..len(result) :: result[k] == members[a].DependsOnFetchIDs[b])
+//@   ensures {no.member.is.its.own.dependency} forall k in 0..len(result) :: !isMemberID(ids, result[k])
+//@   fresh
+//@   loop 0:
+//@     invariant fresh(memberSet)
+//@     invariant forall i in 0..phi0+1 :: has(memberSet, ids[i])
+//@     invariant forall d :: has(memberSet, d) ==> isMemberID(ids, d)
+//@   loop 1:
+//@     invariant fresh(memberSet) && fresh(seen) && (deps == nil || fresh(deps))
+//@     invariant forall i in 0..len(ids) :: has(memberSet, ids[i])
+//@     invariant forall d :: has(memberSet, d) ==> isMemberID(ids, d)
+//@     invariant forall d :: has(seen, d) ==> 0 <= g_pos[d] && g_pos[d] < len(deps) && deps[g_pos[d]] == d
+//@     invariant forall k in 0..len(deps) :: !has(memberSet, deps[k])
+//@     invariant forall a in 0..phi1+1 :: forall b in 0..len(members[a].DependsOnFetchIDs) :: has(memberSet, members[a].DependsOnFetchIDs[b]) || has(seen, members[a].DependsOnFetchIDs[b])
+//@   loop 2:
+//@     invariant fresh(memberSet) && fresh(seen) && (deps == nil || fresh(deps))
+//@     invariant forall i in 0..len(ids) :: has(memberSet, ids[i])
+//@     invariant forall d :: has(memberSet, d) ==> isMemberID(ids, d)
+//@     invariant forall d :: has(seen, d) ==> 0 <= g_pos[d] && g_pos[d] < len(deps) && deps[g_pos[d]] == d
+//@     invariant forall k in 0..len(deps) :: !has(memberSet, deps[k])
+//@     invariant forall a in 0..loopphi(1, 1)+1 :: forall b in 0..len(members[a].DependsOnFetchIDs) :: has(memberSet, members[a].DependsOnFetchIDs[b]) || has(seen, members[a].DependsOnFetchIDs[b])
+//@     invariant 0 <= loopphi(1, 1)+1 && loopphi(1, 1)+1 < len(members) && m == members[loopphi(1, 1)+1]
+//@     invariant forall b in 0..phi1+1 :: has(memberSet, m.DependsOnFetchIDs[b]) || has(seen, m.DependsOnFetchIDs[b])
+
+// rewiring after a fetch was merged away: every child of every (nested) group is either a group that is recursed
+// into with the same ids, or a single fetch whose dependency list is scanned
+//@ func replaceDependsOnFetchID
+//@   ghost var g_rec int = 0
+//@   ghost var g_scan int = 0
+//@   at call replaceDependsOnFetchID: assert {nested.groups.are.rewired.with.the.same.ids} arg1 == oldId && arg2 == newId
+//@   at call replaceDependsOnFetchID: ghost g_rec = g_rec + 1
+//@   at call Fetch.Dependencies: ghost g_scan = g_scan + 1
+//@   ensures {every.child.is.rewired.or.recursed.into} g_rec + g_scan == old(len(root.ChildNodes))
+//@   modifies *
+//@   safety none
+//@   loop 0:
+//@     invariant g_rec + g_scan == phi0 + 1
